@@ -66,6 +66,11 @@ def enc_nats(l):
     return ','.join(str(int(v)) for v in l) if l else '_'
 
 
+def enc_ints(l):
+    l = list(l)
+    return ','.join(str(int(v)) for v in l) if l else '_'
+
+
 def enc_bits(l):
     return ''.join('1' if v else '0' for v in l)
 
